@@ -767,6 +767,45 @@ def main(ctx, replay):
                          {"kind": "request", "case": {"target_behaviour": r["name"], "attempt": r["attempt"], "retry": "exponential max 2 base 1s cap 1m jitter 0"},
                           "observed": r, "expected": {"next_in_ns": back}})
 
+    # ---- a route with several deliver blocks: every target's retry policy is its own block's directive over the defaults, whatever the
+    #      neighbouring blocks say (each block is also compiled alone on a route of its own and must come out the same)
+    try:
+        pool = ["", "exponential max 5", "exponential max 7 base 3s", "exponential max 2 base 1s cap 4s jitter 0.5", "exponential base 250ms",
+                "exponential cap 9s", "exponential jitter 0.1", "exponential max 4 cap 30s"]
+        rb_cases = []
+        for d in ("", "exponential max 2 base 1s cap 1m jitter 0", "exponential max 9 base 7s cap 3m jitter 0.3"):
+            for _ in range(6 if ctx.tier == "quick" else 40):
+                blocks = [rng.choice(pool) for _ in range(rng.choice([2, 2, 3, 4]))]
+                if all(b == "" for b in blocks):
+                    blocks[0] = pool[1]
+                rb_cases.append({"defaults": d, "blocks": blocks})
+        singles = sorted({(c["defaults"], b) for c in rb_cases for b in c["blocks"]})
+        rc, out, err = C.harness_run(H, ["retry-blocks"], {"cases": rb_cases + [{"defaults": d, "blocks": [b]} for d, b in singles]}, timeout=120)
+        if rc != 0:
+            ctx.notes.append("retry-blocks not available: " + err[-300:])
+        else:
+            res = json.loads(out)["cases"]
+            alone = {}
+            for (d, b), r in zip(singles, res[len(rb_cases):]):
+                alone[(d, b)] = r["targets"][0] if r["ok"] else None
+            multi_checked = 0
+            for c, r in zip(rb_cases, res[:len(rb_cases)]):
+                evaluations += 1
+                if not r["ok"]:
+                    continue
+                for j, (b, t) in enumerate(zip(c["blocks"], r["targets"])):
+                    want = alone.get((c["defaults"], b))
+                    multi_checked += 1
+                    nontrivial.add(("retry-block", c["defaults"], tuple(c["blocks"]), j))
+                    if want is not None and t != want:
+                        C.report(ctx, "retry-block-inherits-neighbour:%s" % ("no-directive" if b == "" else "partial-directive"),
+                                 "deliver block #%d of a %d-target route (retry directive %r, defaults %r, the other blocks %s) compiles to %s; the same block alone on a "
+                                 "route compiles to %s" % (j + 1, len(c["blocks"]), b, c["defaults"], [x for k, x in enumerate(c["blocks"]) if k != j], t, want),
+                                 {"kind": "program", "case": c, "observed": r["targets"], "expected_for_block": want, "block": j})
+            dist["retry_blocks"] = {"routes": len(rb_cases), "targets_checked": multi_checked}
+    except (OSError, ValueError, KeyError) as e:
+        ctx.notes.append("retry-blocks scenarios skipped: %r" % (e,))
+
     tt, bt = [], []
     for _ in range(60 if ctx.tier == "quick" else 600):
         n = rng.randint(1, 4)
